@@ -339,9 +339,18 @@ func (database *ChainDatabase) getBlock4DB(hash common.Hash) (*types.Block, erro
 
 	if block == nil {
 		return nil, ErrBlockNotExist
+	} else if database.isLeftover(block) {
+		return nil, ErrBlockNotExist
 	} else {
 		return block, nil
 	}
+}
+
+// isLeftover tells a block record on disk which does not belong to the chain: the records of a commit are written before
+// the stable pointer moves. If the process died in between, the records of the blocks above the stable block are on disk,
+// but those blocks are neither stable nor in the unconfirmed tree any more. They have to be received and executed again
+func (database *ChainDatabase) isLeftover(block *types.Block) bool {
+	return database.LastConfirm != nil && database.LastConfirm.Block != nil && block.Height() > database.LastConfirm.Block.Height()
 }
 
 func (database *ChainDatabase) setBlock2DB(hash common.Hash, block *types.Block) error {
@@ -412,7 +421,11 @@ func (database *ChainDatabase) isExistByHash(hash common.Hash) (bool, error) {
 		return true, nil
 	}
 
-	return UtilsHashBlock(database.Beansdb, hash)
+	_, err := database.getBlock4DB(hash)
+	if err == ErrBlockNotExist {
+		return false, nil
+	}
+	return err == nil, err
 }
 
 func (database *ChainDatabase) IsExistByHash(hash common.Hash) (bool, error) {
